@@ -24,8 +24,8 @@ LEVEL_NOTE = ("TIE TO C07 (theorems, not only through the code): Conc.seq_exec â
               "allocation under concurrency), mailbox n is the name [n], dates are 0, C07's richer observations are projected "
               "(down_obs), a walk is a sequence of listings. The file side is tied likewise: fseq_exec IS StoreSpec without cap and size limit (file_spec_is_storespec; a Conc id "
               "is the handle of its position in the issued table, deliveries compared up to the id) and the commit order of any "
-              "schedule is a run_spec history (file_linearizable_to_storespec). Not proved (NOT_PROVED): non-overlapping runs "
-              "WITH the size limit (eviction timing / enforcer book-keeping). "
+              "schedule is a run_spec history (file_linearizable_to_storespec). With the size limit, non-overlapping runs of deliveries, reads and mark-seen answer as run_mem "
+              "(conc_sequential_is_memstore_limit_partial: eviction timing); not proved (NOT_PROVED): removal notices with the limit. "
               "FAULT FAMILY: the models have no I/O errors. Cases of kind 'fault' (a directory planted at <mailbox dir>/index.gob.tmp "
               "= persistent failure of that mailbox's index rewrite; stands for disk full / read-only / lost permission) are "
               "judged by the clause directly â€” every operation must RETURN (error or not) and the lock-bucket neighbour must be "
@@ -75,7 +75,7 @@ ASSUMPTIONS = [
     "no two file-store ids collide (C07's id hypothesis); ids in the file model are an abstract fresh counter",
 ]
 NOT_PROVED = [
-    "conc_sequential_is_memstore_limit_stmt (Proofs/ConcC07Seq.v): non-overlapping runs of the memory-store concurrency model WITH the size limit answer as C07's run_mem (needs the correspondence of the enforcer's book-keeping; distinct tags as hypothesis) â€” proved only without size limit (conc_sequential_is_memstore); with the limit checked by forced-schedule correspondence and the qstep oracle",
+    "conc_sequential_is_memstore_limit_stmt (Proofs/ConcC07Seq.v): non-overlapping runs WITH the size limit answer as C07's run_mem for ALL histories â€” proved for histories of deliveries, reads and mark-seen without cap (conc_sequential_is_memstore_limit_partial: the eviction loop against MemStore.evict_loop); missing: the removal notices (RemoveMessage, PurgeMessages, cap evictions with the limit), where the model looks a message up in the enforcer's book by its tag (object identity) and C07's model by (mailbox, id) â€” needs distinct tags and 'every live message is registered' as invariants; checked meanwhile by forced-schedule correspondence and the qstep oracle",
 ]
 EXEC_TIMEOUT = {"quick": 600, "thorough": 7200}
 
